@@ -147,6 +147,20 @@ func randomChunks(rng *hx.Rng) string {
 }
 
 func exec(r *hx.Run, op string) string {
+	ans := exec1(r, op)
+	if c := sx.TakeChanged(); c != "" {
+		short := op
+		if len(short) > 500 {
+			short = short[:500] + "..."
+		}
+		// a result handed out earlier (a slice returned by ReadBytes* or kept by an object parser) changed under a later read
+		r.Fail("retained-result-changed", c+"; op: "+short, map[string]string{"oracle": "retained-result-changed", "op": strings.Fields(op)[0]})
+	}
+
+	return ans
+}
+
+func exec1(r *hx.Run, op string) string {
 	f := strings.Fields(op)
 	switch f[0] {
 	case "rt":
@@ -182,6 +196,8 @@ func exec(r *hx.Run, op string) string {
 		return ans
 	case "sr":
 		return sx.ExecSR(f)
+	case "sk":
+		return sx.ExecSK(f)
 	case "rw":
 		ans, in := sx.ExecRW(f)
 		if ans == "werr" {
@@ -190,6 +206,20 @@ func exec(r *hx.Run, op string) string {
 		short := op
 		if len(short) > 500 {
 			short = short[:500] + "..."
+		}
+		if ans == "serr" {
+			// a seek is refused exactly when it would land in front of the buffer, and then it changes nothing
+			if in.OffWant >= 0 {
+				r.Fail("in-place", fmt.Sprintf("a seek to offset %d was refused; op: %s", in.OffWant, short), map[string]string{"oracle": "seek-refused", "op": "rw"})
+			}
+			if in.SeekMoved {
+				r.Fail("in-place", "a refused seek moved the write position; op: "+short, map[string]string{"oracle": "seek-refused-moved", "op": "rw"})
+			}
+
+			return ans
+		}
+		if ans != "panic" && in.Off != in.OffWant {
+			r.Fail("in-place", fmt.Sprintf("the seek landed at offset %d instead of %d; op: %s", in.Off, in.OffWant, short), map[string]string{"oracle": "seek-position", "op": "rw"})
 		}
 		if ans == "panic" {
 			r.Fail("in-place", "panic while writing in place / reading back; op: "+short, map[string]string{"oracle": "panic", "op": "rw"})
@@ -302,7 +332,7 @@ func (b *batch) emit(op, kind string) {
 	b.r.Count("op:" + f[0])
 	b.r.Count("chunks:" + kind)
 	b.r.Count("ans:" + f[0] + ":" + strings.Fields(ans)[0])
-	toks := f[3:]
+	toks := f[2:]
 	if f[0] == "rw" {
 		if i := strings.LastIndex(op, "| "); i > 0 {
 			toks = strings.Fields(op[i+2:]) // the calls of phase 2
@@ -316,7 +346,7 @@ func (b *batch) emit(op, kind string) {
 			b.r.Count("prefix:" + t)
 		}
 	}
-	if strings.HasPrefix(ans, "ok") && (len(f[1]) > 1 || (f[0] == "rw" && (f[1] != "0" || f[3] != "|"))) {
+	if strings.HasPrefix(ans, "ok") && (len(f[1]) > 1 || (f[0] == "rw" && (f[1] != "0" || f[3] != "|"))) && f[0] != "sk" {
 		h := sha256.Sum256([]byte(op))
 		b.r.Nontrivial(string(h[:8]))
 	}
@@ -344,8 +374,8 @@ func main() {
 	r.Rule = "random writer programs (Write num/bool/[N]byte, WriteBytes, WriteBytesWithSize, WriteObject, WriteObjectWithSize, WriteCollection of sized/object/number items; " +
 		"every prefix width incl. uint64; payload sizes 0..24 plus 255/256/257/16383/16384/16385/40000/65535/65536) read back through a chunking reader: " +
 		"whole, 1-byte, prime-sized (2,3,5,7,11,13,251,4099) and random chunk lists (incl. 0-byte reads), with a random tail behind the written bytes; plus reader programs over truncated data; " +
-		"in-place writes (rw): ByteBuffers created with 0..1000 bytes of storage, a first writer program, Seek to 0 / a call boundary / inside / behind the written data, "+
-		"a second program (mostly a collection rewritten in place, then more calls) whose storage layout, final position and read-back are compared; "+
+		"in-place writes (rw): ByteBuffers created with 0..1000 bytes of storage, a first writer program, Seek to 0 / a call boundary / inside / behind the written data, " +
+		"a second program (mostly a collection rewritten in place, then more calls) whose storage layout, final position and read-back are compared; " +
 		"non-trivial = a round trip that succeeded through a reader that really splits (chunk list not empty), or an in-place write into spare storage / over earlier data; distinct by sha256 of the request line"
 	b := &batch{r: r}
 	if lines := r.ReplayLines(); lines != nil {
@@ -378,6 +408,21 @@ func main() {
 		p := hx.Pick(rng, []int{2, 3, 5, 7, 11, 13, 251, 4099})
 		b.emit("rt "+constChunks(p, total)+" "+tail+" "+ws, "prime")
 		b.emit("rt "+randomChunks(rng)+" "+tail+" "+ws, "random")
+		if i%4 == 1 {
+			// a reader that returns io.EOF together with its last bytes (no tail, so that the last read is the last call's)
+			b.emit("rt "+hx.Pick(rng, []string{"-", constChunks(1, total), randomChunks(rng)})+"! - "+ws, "eof-with-data")
+		}
+		if i%3 == 1 {
+			// the written stream read twice through a stream.ByteReader: Offset / BytesRead behind the calls, GoTo(0), the same calls again
+			buf := newBuf()
+			if err := sx.RunW(wp, buf); err == nil {
+				data, _ := buf.Bytes()
+				rp, _ := sx.ReadOf(wp)
+				prog := sx.ShowR(rp)
+				k := rng.Intn(len(rp) + 1)
+				b.emit(strings.Join(strings.Fields("sk "+hx.Hex(append(append([]byte(nil), data...), rbytes(rng, 0, 3)...))+" run ( "+sx.ShowR(rp[:k])+" ) off br run ( "+sx.ShowR(rp[k:])+" ) off br goto 0 br run ( "+prog+" ) off skip -"+strconv.Itoa(rng.Intn(3))+" off br"), " "), "seek")
+			}
+		}
 		if i%3 == 0 {
 			// truncated stream: the reader program of the writer program over a prefix of the written bytes
 			buf := newBuf()
@@ -389,6 +434,8 @@ func main() {
 					cut = rng.Intn(len(data))
 				}
 				b.emit("sr "+randomChunks(rng)+" "+hx.Hex(data[:cut])+" "+sx.ShowR(rp), "truncated")
+				// the whole data, but the reader breaks (an error that is not io.EOF) after `cut` bytes
+				b.emit("sr "+randomChunks(rng)+hx.Pick(rng, []string{"", "!"})+"@"+strconv.Itoa(cut)+" "+hx.Hex(data)+" "+sx.ShowR(rp), "broken-reader")
 			}
 		}
 	}
@@ -435,7 +482,24 @@ func main() {
 		case 3:
 			kind, chunks = "random", randomChunks(rng)
 		}
-		b.emit("rw "+strconv.Itoa(init)+" "+chunks+" "+p1+" | "+strconv.Itoa(off)+" | "+p2, "inplace-"+kind)
+		// the same offset reached by GoTo, by Skip (relative to the position behind phase 1) or from the end of the
+		// storage; now and then a seek that would land in front of the buffer
+		cur := 0
+		if ends := encLens(p1); len(ends) > 0 {
+			cur = ends[len(ends)-1]
+		}
+		seek := strconv.Itoa(off)
+		switch rng.Intn(8) {
+		case 0, 1:
+			seek = fmt.Sprintf("c%+d", off-cur)
+		case 2, 3:
+			seek = fmt.Sprintf("e%+d", off-max(init, cur))
+		case 4:
+			if rng.Chance(1, 3) {
+				seek = hx.Pick(rng, []string{"-1", fmt.Sprintf("c%+d", -cur-1-rng.Intn(3)), fmt.Sprintf("e%+d", -max(init, cur)-1-rng.Intn(3))})
+			}
+		}
+		b.emit("rw "+strconv.Itoa(init)+" "+chunks+" "+p1+" | "+seek+" | "+p2, "inplace-"+kind)
 	}
 	r.Extra["cases_of_20_requests"] = r.Evaluations
 	r.Evaluations = b.total
